@@ -135,7 +135,8 @@ def coq_make(clean=False):
     with Lock("coq"):
         if clean:
             run(["make", "-C", COQ, "clean"], timeout=300)
-        if clean or not os.path.exists(os.path.join(COQ, "Makefile")):
+        mk, proj = os.path.join(COQ, "Makefile.conf"), os.path.join(COQ, "_CoqProject")
+        if clean or not os.path.exists(os.path.join(COQ, "Makefile")) or not os.path.exists(mk) or os.path.getmtime(mk) < os.path.getmtime(proj):
             rc, out, err = run(["coq_makefile", "-f", "_CoqProject", "-o", "Makefile"], cwd=COQ, timeout=120)
             if rc != 0:
                 return False, out + err
